@@ -1,5 +1,6 @@
 import Sudachi.Model.Total
 import Sudachi.Proofs.Edit
+import Sudachi.Proofs.Oov
 /-!
 # Proofs about the fixed-width lattice, the casts and the stages of `do_tokenize` (C03)
 -/
@@ -165,6 +166,349 @@ theorem connectEos_ok (conn : Nat → Nat → Int) (hconn : I16Conn conn) (len :
   · exact Or.inr rfl
   · exact Or.inl ⟨_, rfl⟩
 
+/-! ## the split iterator (`NodeSplitIterator::next`), repaired variant -/
+
+/-- the only facts the repaired step needs **not to index out of range**: every `mod_b2c` entry up to
+byte `nb` exists and is itself an index of `mod_c2b`.  A built buffer has `mod_b2c.len() = bytes + 1`,
+`mod_c2b.len() = chars + 1` and `mod_b2c[i] ≤ chars` (`tables_of_text`). -/
+def TablesRange (b2c c2b : List Nat) (nb : Nat) : Prop :=
+  ∀ i, i ≤ nb → ∃ c : Nat, b2c[i]? = some c ∧ ∃ b : Nat, c2b[c]? = some b
+
+/-- the table invariants of a built `InputBuffer` with `nb` bytes and `nc` characters: `mod_b2c` maps a byte
+to the character containing it (sentinel `nc` at `nb`), `mod_c2b` a character to its first byte (sentinel
+`nb` at `nc`); both are non-decreasing, `mod_c2b[mod_b2c[i]] ≤ i` (the start of the character containing
+byte `i`), and `mod_b2c[mod_c2b[k]] = k`. -/
+structure TablesOk (b2c c2b : List Nat) (nb nc : Nat) : Prop where
+  b2c_def : ∀ i, i ≤ nb → ∃ c : Nat, b2c[i]? = some c ∧ c ≤ nc
+  c2b_def : ∀ k, k ≤ nc → ∃ b : Nat, c2b[k]? = some b ∧ b ≤ nb
+  b2c_mono : ∀ i j ci cj : Nat, i ≤ j → b2c[i]? = some ci → b2c[j]? = some cj → ci ≤ cj
+  c2b_mono : ∀ i j bi bj : Nat, i ≤ j → c2b[i]? = some bi → c2b[j]? = some bj → bi ≤ bj
+  snap_le : ∀ i c b : Nat, b2c[i]? = some c → c2b[c]? = some b → b ≤ i
+  b2c_c2b : ∀ k b : Nat, c2b[k]? = some b → b2c[b]? = some k
+
+theorem TablesOk.range {b2c c2b : List Nat} {nb nc : Nat} (h : TablesOk b2c c2b nb nc) :
+    TablesRange b2c c2b nb := by
+  intro i hi
+  obtain ⟨c, hc, hcn⟩ := h.b2c_def i hi
+  obtain ⟨b, hb, _⟩ := h.c2b_def c hcn
+  exact ⟨c, hc, b, hb⟩
+
+/-- the pair (character offset, byte offset) is the start of a character -/
+def At (b2c c2b : List Nat) (c b : Nat) : Prop := b2c[b]? = some c ∧ c2b[c]? = some b
+
+/-- **the repaired step never indexes out of range**, whatever the unit's key length `h` and wherever the
+iterator stands (`bs` arbitrary): the clamp keeps the `mod_b2c` index at or below the parent's end. -/
+theorem unitEnd_d6fix_ok (b2c c2b : List Nat) (nb : Nat) (hr : TablesRange b2c c2b nb)
+    (byteEnd : Nat) (he : byteEnd ≤ nb) (bs h : Nat) :
+    ∃ ce be, unitEnd .d6fix b2c c2b byteEnd bs h = .ok (ce, be) := by
+  have hm : min (bs + h) byteEnd ≤ nb := Nat.le_trans (Nat.min_le_right _ _) he
+  obtain ⟨c, hc, b, hb⟩ := hr _ hm
+  exact ⟨asU16 c, asU16 b, by simp only [unitEnd, hc, hb]⟩
+
+theorem splitGo_d6fix_ok (b2c c2b : List Nat) (nb : Nat) (hr : TablesRange b2c c2b nb)
+    (charEnd byteEnd : Nat) (he : byteEnd ≤ nb) :
+    ∀ (units : List Nat) (cs bs : Nat), ∃ us, splitGo .d6fix b2c c2b charEnd byteEnd units cs bs = .ok us
+  | [], _, _ => ⟨[], rfl⟩
+  | [_], cs, bs => ⟨[⟨cs, charEnd, bs, byteEnd⟩], rfl⟩
+  | h :: u :: rest, cs, bs => by
+    obtain ⟨ce, be, hue⟩ := unitEnd_d6fix_ok b2c c2b nb hr byteEnd he bs h
+    obtain ⟨us, hus⟩ := splitGo_d6fix_ok b2c c2b nb hr charEnd byteEnd he (u :: rest) ce be
+    exact ⟨⟨cs, ce, bs, be⟩ :: us, by simp only [splitGo, hue, hus]⟩
+
+theorem splitPath_d6fix_ok (b2c c2b : List Nat) (nb : Nat) (hr : TablesRange b2c c2b nb) :
+    ∀ (path : List (NodeRange × List Nat)), (∀ p ∈ path, p.1.eb ≤ nb) →
+      ∃ ms, splitPath .d6fix b2c c2b path = .ok ms
+  | [], _ => ⟨[], rfl⟩
+  | (n, units) :: rest, hp => by
+    obtain ⟨ms, hms⟩ := splitPath_d6fix_ok b2c c2b nb hr rest (fun p h => hp p (List.mem_cons_of_mem _ h))
+    have hn : n.eb ≤ nb := hp (n, units) (List.mem_cons_self ..)
+    by_cases hl : units.length ≤ 1
+    · exact ⟨[n] ++ ms, by simp only [splitPath, if_pos hl, hms]⟩
+    · obtain ⟨us, hus⟩ := splitGo_d6fix_ok b2c c2b nb hr n.ec n.eb hn units n.bc n.bb
+      exact ⟨us ++ ms, by simp only [splitPath, if_neg hl, split, hus, hms]⟩
+
+/-- a unit lies inside its parent, runs forward, and both its ends are character starts -/
+def UnitOk (b2c c2b : List Nat) (n u : NodeRange) : Prop :=
+  n.bb ≤ u.bb ∧ u.bb ≤ u.eb ∧ u.eb ≤ n.eb ∧ n.bc ≤ u.bc ∧ u.bc ≤ u.ec ∧ u.ec ≤ n.ec ∧
+    At b2c c2b u.bc u.bb ∧ At b2c c2b u.ec u.eb
+
+/-- the units are laid end to end from `(cs, bs)` to `(ce, be)` -/
+def Tiles : List NodeRange → Nat → Nat → Nat → Nat → Prop
+  | [], cs, bs, ce, be => cs = ce ∧ bs = be
+  | u :: us, cs, bs, ce, be => u.bc = cs ∧ u.bb = bs ∧ Tiles us u.ec u.eb ce be
+
+/-- one repaired step from a character start inside the parent: the new position is again a character
+start, not before the old one and not after the parent's end; the casts are the identity -/
+theorem unitEnd_d6fix_spec (b2c c2b : List Nat) (nb nc : Nat) (ht : TablesOk b2c c2b nb nc)
+    (hnb : nb ≤ 65535) (hnc : nc ≤ 65535) (charEnd byteEnd : Nat) (he : byteEnd ≤ nb)
+    (hpe : At b2c c2b charEnd byteEnd) (cs bs h : Nat) (hat : At b2c c2b cs bs) (hbs : bs ≤ byteEnd) :
+    ∃ ce be, unitEnd .d6fix b2c c2b byteEnd bs h = .ok (ce, be) ∧ At b2c c2b ce be ∧
+      bs ≤ be ∧ be ≤ byteEnd ∧ cs ≤ ce ∧ ce ≤ charEnd := by
+  have hmle : min (bs + h) byteEnd ≤ byteEnd := Nat.min_le_right _ _
+  have hbm : bs ≤ min (bs + h) byteEnd := Nat.le_min.mpr ⟨Nat.le_add_right _ _, hbs⟩
+  obtain ⟨c, hc, hcn⟩ := ht.b2c_def _ (Nat.le_trans hmle he)
+  obtain ⟨b, hb, hbn⟩ := ht.c2b_def c hcn
+  have h1 : cs ≤ c := ht.b2c_mono _ _ _ _ hbm hat.1 hc
+  have h2 : bs ≤ b := ht.c2b_mono _ _ _ _ h1 hat.2 hb
+  have h3 : b ≤ min (bs + h) byteEnd := ht.snap_le _ _ _ hc hb
+  have h4 : c ≤ charEnd := ht.b2c_mono _ _ _ _ hmle hc hpe.1
+  refine ⟨c, b, ?_, ⟨ht.b2c_c2b _ _ hb, hb⟩, h2, Nat.le_trans h3 hmle, h1, h4⟩
+  simp only [unitEnd, hc, hb, asU16_id c (by omega), asU16_id b (by omega)]
+
+theorem splitGo_d6fix_spec (b2c c2b : List Nat) (nb nc : Nat) (ht : TablesOk b2c c2b nb nc)
+    (hnb : nb ≤ 65535) (hnc : nc ≤ 65535) (n : NodeRange) (he : n.eb ≤ nb)
+    (hpe : At b2c c2b n.ec n.eb) :
+    ∀ (units : List Nat) (cs bs : Nat), units ≠ [] → At b2c c2b cs bs → n.bb ≤ bs → bs ≤ n.eb → n.bc ≤ cs →
+      ∃ us, splitGo .d6fix b2c c2b n.ec n.eb units cs bs = .ok us ∧ Tiles us cs bs n.ec n.eb ∧
+        ∀ u ∈ us, UnitOk b2c c2b n u
+  | [], _, _, hne, _, _, _, _ => absurd rfl hne
+  | [_], cs, bs, _, hat, h1, h2, h3 => by
+    have hce : cs ≤ n.ec := ht.b2c_mono _ _ _ _ h2 hat.1 hpe.1
+    refine ⟨[⟨cs, n.ec, bs, n.eb⟩], rfl, ⟨rfl, rfl, rfl, rfl⟩, ?_⟩
+    intro u hu
+    simp only [List.mem_singleton] at hu
+    subst hu
+    exact ⟨h1, h2, Nat.le_refl _, h3, hce, Nat.le_refl _, hat, hpe⟩
+  | h :: u :: rest, cs, bs, _, hat, h1, h2, h3 => by
+    obtain ⟨ce, be, hue, hat', g1, g2, g3, g4⟩ :=
+      unitEnd_d6fix_spec b2c c2b nb nc ht hnb hnc n.ec n.eb he hpe cs bs h hat h2
+    obtain ⟨us, hus, htile, hall⟩ := splitGo_d6fix_spec b2c c2b nb nc ht hnb hnc n he hpe (u :: rest) ce be
+      (by simp) hat' (Nat.le_trans h1 g1) g2 (Nat.le_trans h3 g3)
+    refine ⟨⟨cs, ce, bs, be⟩ :: us, by simp only [splitGo, hue, hus], ⟨rfl, rfl, htile⟩, ?_⟩
+    intro x hx
+    rcases List.mem_cons.mp hx with hx | hx
+    · subst hx
+      exact ⟨h1, g1, g2, h3, g3, g4, hat, hat'⟩
+    · exact hall x hx
+
+/-! ### the tables of a text satisfy the range facts -/
+
+theorem b2cFrom_length : ∀ (t : List Nat) (cnt : Nat), (EditM.b2cFrom cnt t).length = t.length
+  | [], _ => rfl
+  | b :: bs, cnt => by simp [EditM.b2cFrom, b2cFrom_length bs]
+
+theorem b2cFrom_le : ∀ (t : List Nat) (cnt : Nat), ∀ x ∈ EditM.b2cFrom cnt t, x + 1 ≤ cnt + EditM.nchars t ∨ x = 0
+  | [], _, x, hx => by simp [EditM.b2cFrom] at hx
+  | b :: bs, cnt, x, hx => by
+    simp only [EditM.b2cFrom, List.mem_cons] at hx
+    have hn : EditM.nchars (b :: bs) = (if EditM.isStart b then 1 else 0) + EditM.nchars bs := by
+      unfold EditM.nchars
+      by_cases hb : EditM.isStart b = true
+      · simp [List.filter, hb]; omega
+      · simp [List.filter, hb]
+    rcases hx with hx | hx
+    · by_cases hb : EditM.isStart b = true
+      · simp only [hb, if_true] at hx hn; left; omega
+      · simp only [hb] at hx hn
+        by_cases h0 : cnt = 0
+        · right; subst h0; simpa using hx
+        · left; simp at hx; omega
+    · rcases b2cFrom_le bs _ x hx with h | h
+      · left
+        by_cases hb : EditM.isStart b = true
+        · simp only [hb, if_true] at h hn; omega
+        · simp only [hb] at h hn; simp at h; omega
+      · exact Or.inr h
+
+/-- `mod_b2c`/`mod_c2b` of a text with at least one character start: every `mod_b2c` entry exists up to the
+text length and is an index of `mod_c2b` -/
+theorem tables_of_text (t : List Nat) (h1 : 1 ≤ EditM.nchars t) :
+    TablesRange (EditM.b2c t) (EditM.c2b t) t.length := by
+  intro i hi
+  have hlen : (EditM.b2c t).length = t.length + 1 := by simp [EditM.b2c, b2cFrom_length]
+  have hi' : i < (EditM.b2c t).length := by omega
+  obtain ⟨x, hx⟩ : ∃ x, (EditM.b2c t)[i]? = some x := ⟨_, List.getElem?_eq_getElem hi'⟩
+  refine ⟨x, hx, ?_⟩
+  have hc : x ≤ EditM.nchars t := by
+    have hm : x ∈ EditM.b2c t := List.mem_of_getElem? hx
+    unfold EditM.b2c at hm
+    rw [List.mem_append] at hm
+    rcases hm with hm | hm
+    · rcases b2cFrom_le t 0 _ hm with h | h <;> omega
+    · simp only [List.mem_singleton] at hm
+      rw [hm]; split <;> omega
+  have hcl := EditM.c2b_length t
+  exact ⟨_, List.getElem?_eq_getElem (by omega)⟩
+
+/-! ### the tables of a text satisfy the full invariants -/
+
+theorem nchars_cons (b : Nat) (bs : List Nat) :
+    EditM.nchars (b :: bs) = (if EditM.isStart b = true then 1 else 0) + EditM.nchars bs := by
+  unfold EditM.nchars
+  by_cases hb : EditM.isStart b = true
+  · simp [List.filter, hb]; omega
+  · simp [List.filter, hb]
+
+/-- number of character starts among the first `i` bytes is non-decreasing in `i` -/
+theorem nchars_take_mono (t : List Nat) (i j : Nat) (h : i ≤ j) :
+    EditM.nchars (t.take i) ≤ EditM.nchars (t.take j) := by
+  have e : t.take i = (t.take j).take i := by rw [List.take_take, Nat.min_eq_left h]
+  unfold EditM.nchars
+  rw [e]
+  exact ((List.take_sublist i (t.take j)).filter _).length_le
+
+theorem nchars_take_all (t : List Nat) : EditM.nchars (t.take t.length) = EditM.nchars t := by
+  rw [List.take_length]
+
+/-- `mod_b2c[i]` (without the sentinel) = number of character starts among the bytes `0..=i`, minus one -/
+theorem b2cFrom_getElem : ∀ (t : List Nat) (cnt i : Nat), i < t.length →
+    (EditM.b2cFrom cnt t)[i]? = some (cnt + EditM.nchars (t.take (i + 1)) - 1)
+  | [], _, i, h => by simp at h
+  | b :: bs, cnt, 0, _ => by
+    simp only [EditM.b2cFrom, List.getElem?_cons_zero, List.take_succ_cons, List.take_zero, nchars_cons]
+    by_cases hb : EditM.isStart b = true <;> simp [hb, EditM.nchars]
+  | b :: bs, cnt, i + 1, h => by
+    have hi : i < bs.length := by simpa using h
+    simp only [EditM.b2cFrom, List.getElem?_cons_succ, List.take_succ_cons, nchars_cons]
+    rw [b2cFrom_getElem bs _ i hi]
+    by_cases hb : EditM.isStart b = true
+    · simp only [hb, if_true]; congr 1; omega
+    · simp only [hb]; congr 1; simp
+
+/-- `mod_c2b[k]` (without the sentinel) = the byte `b` with exactly `k` character starts before it that is itself
+a character start -/
+theorem c2bFrom_getElem : ∀ (t : List Nat) (o k : Nat), k < EditM.nchars t →
+    ∃ b, (EditM.c2bFrom o t)[k]? = some (o + b) ∧ b < t.length ∧ EditM.nchars (t.take b) = k ∧
+      EditM.nchars (t.take (b + 1)) = k + 1
+  | [], _, k, h => by simp [EditM.nchars] at h
+  | b0 :: bs, o, k, h => by
+    rw [nchars_cons] at h
+    by_cases hb : EditM.isStart b0 = true
+    · simp only [hb, if_true] at h
+      cases k with
+      | zero =>
+        refine ⟨0, by simp [EditM.c2bFrom, hb], by simp, by simp [EditM.nchars], ?_⟩
+        simp [List.take_succ_cons, hb, EditM.nchars]
+      | succ k' =>
+        obtain ⟨b, h1, h2, h3, h4⟩ := c2bFrom_getElem bs (o + 1) k' (by omega)
+        refine ⟨b + 1, ?_, by simp; omega, ?_, ?_⟩
+        · simp only [EditM.c2bFrom, hb, if_true, List.getElem?_cons_succ, h1]; congr 1; omega
+        · simp only [List.take_succ_cons, nchars_cons, hb, if_true, h3]; omega
+        · simp only [List.take_succ_cons, nchars_cons, hb, if_true, h4]; omega
+    · have hb' : EditM.isStart b0 = false := by simpa using hb
+      simp only [hb'] at h
+      obtain ⟨b, h1, h2, h3, h4⟩ := c2bFrom_getElem bs (o + 1) k (by simpa using h)
+      refine ⟨b + 1, ?_, by simp; omega, ?_, ?_⟩
+      · have e : o + 1 + b = o + (b + 1) := by omega
+        simp [EditM.c2bFrom, hb', h1, e]
+      · simp [List.take_succ_cons, nchars_cons, hb', h3]
+      · simp [List.take_succ_cons, nchars_cons, hb', h4]
+
+/-- **the tables `InputBuffer::build` fills (`mod_b2c`, `mod_c2b` as modelled in `Model/Edit.lean`) satisfy
+`TablesOk`** for every text whose first byte is a character start (every non-empty UTF-8 text:
+`nchars_pos_of_utf8`) -/
+theorem tablesOk_of_text (t : List Nat) (b0 : Nat) (rest : List Nat) (ht : t = b0 :: rest)
+    (hs : EditM.isStart b0 = true) :
+    TablesOk (EditM.b2c t) (EditM.c2b t) t.length (EditM.nchars t) := by
+  have hN : 1 ≤ EditM.nchars t := by rw [ht, nchars_cons, hs]; simp
+  have hsb1 : ∀ j, 1 ≤ j → 1 ≤ EditM.nchars (t.take j) := by
+    intro j hj
+    have := nchars_take_mono t 1 j hj
+    have e : EditM.nchars (t.take 1) = 1 := by rw [ht]; simp [List.take_succ_cons, hs, EditM.nchars]
+    omega
+  have hsbN : ∀ j, EditM.nchars (t.take j) ≤ EditM.nchars t := by
+    intro j
+    unfold EditM.nchars
+    exact ((List.take_sublist j t).filter _).length_le
+  have hbl : (EditM.b2cFrom 0 t).length = t.length := b2cFrom_length t 0
+  have hcl : (EditM.c2bFrom 0 t).length = EditM.nchars t := EditM.c2bFrom_length t 0
+  have hsent : (if EditM.nchars t = 0 then 1 else EditM.nchars t) = EditM.nchars t := by
+    rw [if_neg (by omega)]
+  -- getters
+  have gb_lt : ∀ i, i < t.length → (EditM.b2c t)[i]? = some (EditM.nchars (t.take (i + 1)) - 1) := by
+    intro i hi
+    unfold EditM.b2c
+    rw [List.getElem?_append_left (by omega), b2cFrom_getElem t 0 i hi]; simp
+  have gb_L : (EditM.b2c t)[t.length]? = some (EditM.nchars t) := by
+    unfold EditM.b2c
+    rw [List.getElem?_append_right (by omega), hbl, hsent]; simp
+  have gb_dom : ∀ i c, (EditM.b2c t)[i]? = some c → i ≤ t.length := by
+    intro i c h
+    have := (List.getElem?_eq_some_iff.mp h).1
+    simp [EditM.b2c, hbl] at this; omega
+  have gc_lt : ∀ k, k < EditM.nchars t → ∃ b, (EditM.c2b t)[k]? = some b ∧ b < t.length ∧
+      EditM.nchars (t.take b) = k ∧ EditM.nchars (t.take (b + 1)) = k + 1 := by
+    intro k hk
+    obtain ⟨b, h1, h2, h3, h4⟩ := c2bFrom_getElem t 0 k hk
+    refine ⟨b, ?_, h2, h3, h4⟩
+    unfold EditM.c2b
+    rw [List.getElem?_append_left (by omega), h1]; simp
+  have gc_N : (EditM.c2b t)[EditM.nchars t]? = some t.length := EditM.c2b_last t
+  have gc_dom : ∀ k b, (EditM.c2b t)[k]? = some b → k ≤ EditM.nchars t := by
+    intro k b h
+    have := (List.getElem?_eq_some_iff.mp h).1
+    rw [EditM.c2b_length] at this; omega
+  -- value of `mod_b2c` at any defined index
+  have gb_val : ∀ i c, (EditM.b2c t)[i]? = some c →
+      (i < t.length ∧ c = EditM.nchars (t.take (i + 1)) - 1) ∨ (i = t.length ∧ c = EditM.nchars t) := by
+    intro i c h
+    have hd := gb_dom i c h
+    rcases Nat.lt_or_ge i t.length with hi | hi
+    · left; rw [gb_lt i hi] at h; exact ⟨hi, (Option.some.inj h).symm⟩
+    · right
+      have : i = t.length := by omega
+      subst this; rw [gb_L] at h; exact ⟨rfl, (Option.some.inj h).symm⟩
+  refine ⟨?_, ?_, ?_, ?_, ?_, ?_⟩
+  · intro i hi
+    rcases Nat.lt_or_ge i t.length with h | h
+    · exact ⟨_, gb_lt i h, by have := hsbN (i + 1); omega⟩
+    · have : i = t.length := by omega
+      subst this; exact ⟨_, gb_L, Nat.le_refl _⟩
+  · intro k hk
+    rcases Nat.lt_or_ge k (EditM.nchars t) with h | h
+    · obtain ⟨b, h1, h2, _⟩ := gc_lt k h; exact ⟨b, h1, by omega⟩
+    · have : k = EditM.nchars t := by omega
+      subst this; exact ⟨_, gc_N, Nat.le_refl _⟩
+  · intro i j ci cj hij h1 h2
+    have m := nchars_take_mono t (i + 1) (j + 1) (by omega)
+    have n1 := hsbN (i + 1)
+    have n2 := hsbN (j + 1)
+    rcases gb_val i ci h1 with ⟨a1, a2⟩ | ⟨a1, a2⟩ <;> rcases gb_val j cj h2 with ⟨b1, b2⟩ | ⟨b1, b2⟩ <;> omega
+  · intro i j bi bj hij h1 h2
+    rcases Nat.eq_or_lt_of_le hij with h | h
+    · subst h; rw [h1] at h2; cases h2; exact Nat.le_refl _
+    · obtain ⟨hi, e1⟩ := List.getElem?_eq_some_iff.mp h1
+      obtain ⟨hj, e2⟩ := List.getElem?_eq_some_iff.mp h2
+      have := (List.pairwise_iff_getElem.mp (EditM.c2b_spec t).1) i j hi hj h
+      omega
+  · intro i c b h1 h2
+    rcases gb_val i c h1 with ⟨a1, a2⟩ | ⟨a1, a2⟩
+    · have p1 := hsb1 (i + 1) (by omega)
+      have p2 := hsbN (i + 1)
+      obtain ⟨b', g1, g2, g3, _⟩ := gc_lt c (by omega)
+      rw [g1] at h2; cases h2
+      rcases Nat.lt_or_ge i b with hlt | hge
+      · have := nchars_take_mono t (i + 1) b hlt; omega
+      · exact hge
+    · subst a1; subst a2; rw [gc_N] at h2; cases h2; exact Nat.le_refl _
+  · intro k b h
+    have hk := gc_dom k b h
+    rcases Nat.lt_or_ge k (EditM.nchars t) with hlt | hge
+    · obtain ⟨b', g1, g2, _, g4⟩ := gc_lt k hlt
+      rw [g1] at h; cases h
+      rw [gb_lt b g2, g4]; simp
+    · have : k = EditM.nchars t := by omega
+      subst this; rw [gc_N] at h; cases h; exact gb_L
+
+/-- a non-empty text that decodes as UTF-8 begins with a character start -/
+theorem nchars_pos_of_utf8 (t : List Nat) (chars : List Nat) (hd : Wire.utf8Decode t = some chars)
+    (hne : chars.isEmpty = false) : 1 ≤ EditM.nchars t := by
+  cases t with
+  | nil => simp [Wire.utf8Decode] at hd; subst hd; simp at hne
+  | cons b0 rest =>
+    have hs : EditM.isStart b0 = true := by
+      unfold EditM.isStart
+      by_cases h1 : b0 < 0x80
+      · simp; omega
+      · by_cases h2 : b0 < 0xC0
+        · rw [Wire.utf8Decode.eq_def] at hd; simp only [] at hd; rw [if_neg h1, if_pos h2] at hd; cases hd
+        · simp; omega
+    unfold EditM.nchars
+    simp [List.filter, hs]
+
+/-- `mod_c2b` entries never exceed the text length (sentinel included), so neither do their `as u16` casts -/
+theorem asU16_le (n : Nat) : asU16 n ≤ n := Nat.mod_le _ _
+
 /-! ## outcomes -/
 
 def NoPanic {α : Type} (o : Outcome α) : Prop := ∀ w, o ≠ .panic w
@@ -234,5 +578,690 @@ theorem toOrigByteIdx_some {st : Nat → Bool} {Bo : Nat → Prop} {N : Nat} (l 
   unfold EditM.toOrigByteIdx
   rw [hx]
   exact EditM.snds_getElem? l x hlt
+
+/-! ## `resolve_best_path`: byte ends are inside the text -/
+
+theorem mapM_mem {α β : Type} (f : α → Outcome β) : ∀ (as : List α) (bs : List β), mapM f as = .ok bs →
+    ∀ b ∈ bs, ∃ a ∈ as, f a = .ok b
+  | [], bs, h, b, hb => by simp [mapM] at h; subst h; cases hb
+  | a :: as, bs, h, b, hb => by
+    unfold mapM at h
+    cases h1 : f a with
+    | err k => rw [h1] at h; cases h
+    | panic w => rw [h1] at h; cases h
+    | ok b1 =>
+      rw [h1] at h; simp only [] at h
+      cases h2 : mapM f as with
+      | err k => rw [h2] at h; cases h
+      | panic w => rw [h2] at h; cases h
+      | ok bs1 =>
+        rw [h2] at h; simp only [] at h
+        cases h
+        rcases List.mem_cons.mp hb with hb | hb
+        · subst hb; exact ⟨a, List.mem_cons_self .., h1⟩
+        · obtain ⟨a', ha', hf⟩ := mapM_mem f as bs1 h2 b hb
+          exact ⟨a', List.mem_cons_of_mem _ ha', hf⟩
+
+/-- `to_curr_byte_idx(end) as u16` of a node of the path is at most the length of the text -/
+theorem resultNode_eb_le (t : List Nat) (ent : Entry) (r : NodeRange)
+    (h : resultNode (EditM.c2b t) ent = .ok r) : r.bb ≤ t.length ∧ r.eb ≤ t.length := by
+  unfold resultNode at h
+  cases h1 : (EditM.c2b t)[ent.node.b]? with
+  | none => rw [h1] at h; simp at h
+  | some bb =>
+    cases h2 : (EditM.c2b t)[ent.node.e]? with
+    | none => rw [h1, h2] at h; simp at h
+    | some eb =>
+      rw [h1, h2] at h; simp only [] at h
+      cases h
+      have a1 := c2b_getElem_le t _ _ h1
+      have a2 := c2b_getElem_le t _ _ h2
+      have b1 := asU16_le bb
+      have b2 := asU16_le eb
+      simp only []
+      omega
+
+/-! ## `lattice_index_in_range`: back-pointers and `mod_c2b` indices of the nodes on the best path -/
+
+section ConnPtr
+variable (add : Int → Int → Option Int) (M : Int) (conn : Nat → Nat → Int)
+
+/-- the state of `connect_node`'s loop points at a connected entry of the row it scans -/
+def Ptr (M : Int) (n : Vit.Node) (full : List Entry) (st : Int × Nat × Nat) : Prop :=
+  ∃ j l, full[j]? = some l ∧ l.total ≠ M ∧ st.2.1 = asU16 n.b ∧ st.2.2 = asU16 j
+
+/-- the loop of `connect_node` keeps "the minimum is still the sentinel, or the back-pointer designates an entry
+of the scanned row that is connected to BOS" (`i` = the enumerate counter = position of the suffix in the row) -/
+theorem connGo_ptr (n : Vit.Node) (full : List Entry) :
+    ∀ (suffix : List Entry) (i : Nat) (st st' : Int × Nat × Nat), full.drop i = suffix →
+      (st.1 = M ∨ Ptr M n full st) → connGo add M conn n suffix i st = some st' →
+      (st'.1 = M ∨ Ptr M n full st')
+  | [], _, st, st', _, hst, h => by
+    simp only [connGo] at h; cases h; exact hst
+  | l :: rest, i, st, st', hd, hst, h => by
+    have hl : full[i]? = some l := by
+      have := congrArg (fun x => x[0]?) hd
+      simpa [List.getElem?_drop] using this
+    have hd' : full.drop (i + 1) = rest := by
+      have := congrArg (List.drop 1) hd
+      simpa [List.drop_drop] using this
+    unfold connGo at h
+    by_cases hm : l.total = M
+    · rw [if_pos hm] at h
+      exact connGo_ptr n full rest (i + 1) st st' hd' hst h
+    · rw [if_neg hm] at h
+      cases h1 : add l.total (conn l.node.r n.l) with
+      | none => rw [h1] at h; cases h
+      | some x =>
+        rw [h1] at h; simp only [] at h
+        cases h2 : add x n.c with
+        | none => rw [h2] at h; cases h
+        | some nc =>
+          rw [h2] at h; simp only [] at h
+          by_cases hlt : nc < st.1
+          · rw [if_pos hlt] at h
+            exact connGo_ptr n full rest (i + 1) _ st' hd' (Or.inr ⟨i, l, hl, hm, rfl, rfl⟩) h
+          · rw [if_neg hlt] at h
+            exact connGo_ptr n full rest (i + 1) st st' hd' hst h
+
+theorem connectNode_ptr (n : Vit.Node) (row : List Entry) (r : Int × Nat × Nat)
+    (h : connectNode add M conn row n = some r) : r.1 = M ∨ Ptr M n row r :=
+  connGo_ptr add M conn n row row 0 _ r rfl (Or.inl rfl) h
+
+end ConnPtr
+
+/-- an entry is stored in the row of its end, begins before it, and is either not connected to BOS (sentinel) or
+its back-pointer is `(begin, index of a connected entry of row begin)`; `rows` as in `Lattice`: row 0 holds the
+BOS entry.  `rest` = the candidates still to be inserted: no row ever exceeds 65536 entries. -/
+structure PathInv (len : Nat) (rest : List Vit.Node) (rows : Rows) : Prop where
+  size : rows.size = len + 1
+  small : ∀ (e : Nat) (row : List Entry), rows[e]? = some row → row.length + rest.countP (fun n => n.e == e) ≤ 65536
+  ent : ∀ (e : Nat) (row : List Entry) (i : Nat) (x : Entry), 1 ≤ e → rows[e]? = some row → row[i]? = some x →
+    x.node.e = e ∧ x.node.b < e ∧
+    (x.total = I32_MAX ∨ (x.pe = x.node.b ∧
+      (x.node.b = 0 ∨ ∃ (row' : List Entry) (p : Entry), rows[x.node.b]? = some row' ∧ row'[x.pi]? = some p ∧ p.total ≠ I32_MAX)))
+
+theorem reset_pathInv (len : Nat) (nodes : List Vit.Node)
+    (hcnt : ∀ e, nodes.countP (fun n => n.e == e) ≤ 65535) : PathInv len nodes (reset len) := by
+  have hget : ∀ e row, (reset len)[e]? = some row → row.length ≤ 1 ∧ (1 ≤ e → row = []) := by
+    intro e row h
+    unfold reset at h
+    rw [Array.getElem?_setIfInBounds] at h
+    split at h
+    · rename_i h0
+      subst h0
+      split at h
+      · cases h; exact ⟨by simp, fun h1 => absurd h1 (by omega)⟩
+      · cases h
+    · rw [Array.getElem?_replicate] at h
+      split at h
+      · cases h; exact ⟨by simp, fun _ => rfl⟩
+      · cases h
+  refine ⟨by simp [reset], ?_, ?_⟩
+  · intro e row h
+    have := (hget e row h).1
+    have := hcnt e
+    omega
+  · intro e row i x he h hx
+    rw [(hget e row h).2 he] at hx
+    simp at hx
+
+/-- one `insert` keeps the path invariant (no arithmetic involved: whatever the costs are) -/
+theorem insert_pathInv (add : Int → Int → Option Int) (conn : Nat → Nat → Int) (len : Nat) (hlen : len ≤ 65535)
+    (rest : List Vit.Node) (rows : Rows) (n : Vit.Node) (hinv : PathInv len (n :: rest) rows)
+    (hn : n.b < n.e ∧ n.e ≤ len) (rows' : Rows) (ent : Entry)
+    (h : insert add I32_MAX conn rows n = .ok (rows', ent)) : PathInv len rest rows' := by
+  obtain ⟨hsize, hsmall, hent⟩ := hinv
+  unfold insert at h
+  cases hb : rows[n.b]? with
+  | none => rw [hb] at h; cases h
+  | some rowB =>
+    rw [hb] at h; simp only [] at h
+    cases hc : connectNode add I32_MAX conn rowB n with
+    | none => rw [hc] at h; cases h
+    | some r =>
+      obtain ⟨c, pe, pi⟩ := r
+      rw [hc] at h; simp only [] at h
+      cases he : rows[n.e]? with
+      | none => rw [he] at h; cases h
+      | some rowE =>
+        rw [he] at h; simp only [] at h
+        cases h
+        have hes : n.e < rows.size := by omega
+        -- rows only grow
+        have grow : ∀ (b : Nat) (row : List Entry), rows[b]? = some row →
+            ∃ row'' : List Entry, (rows.setIfInBounds n.e (rowE ++ [⟨n, c, pe, pi⟩]))[b]? = some row'' ∧
+            ∀ (j : Nat) (p : Entry), row[j]? = some p → row''[j]? = some p := by
+          intro b row hrow
+          rw [Array.getElem?_setIfInBounds]
+          by_cases hbe : n.e = b
+          · subst hbe
+            rw [if_pos rfl, if_pos hes]
+            rw [he] at hrow; cases hrow
+            refine ⟨_, rfl, ?_⟩
+            intro j p hj
+            have hjl : j < rowE.length := (List.getElem?_eq_some_iff.mp hj).1
+            rw [List.getElem?_append_left hjl]; exact hj
+          · rw [if_neg hbe]; exact ⟨row, hrow, fun _ _ hj => hj⟩
+        have keep : ∀ x : Entry, (x.total = I32_MAX ∨ (x.pe = x.node.b ∧
+              (x.node.b = 0 ∨ ∃ row' p, rows[x.node.b]? = some row' ∧ row'[x.pi]? = some p ∧ p.total ≠ I32_MAX))) →
+            (x.total = I32_MAX ∨ (x.pe = x.node.b ∧
+              (x.node.b = 0 ∨ ∃ row' p, (rows.setIfInBounds n.e (rowE ++ [⟨n, c, pe, pi⟩]))[x.node.b]? = some row' ∧
+                row'[x.pi]? = some p ∧ p.total ≠ I32_MAX))) := by
+          intro x hx
+          rcases hx with hx | ⟨h1, h2⟩
+          · exact Or.inl hx
+          · refine Or.inr ⟨h1, ?_⟩
+            rcases h2 with h2 | ⟨row', p, g1, g2, g3⟩
+            · exact Or.inl h2
+            · obtain ⟨row'', k1, k2⟩ := grow _ _ g1
+              exact Or.inr ⟨row'', p, k1, k2 _ _ g2, g3⟩
+        refine ⟨by rw [Array.size_setIfInBounds]; exact hsize, ?_, ?_⟩
+        · intro e row hrow
+          rw [Array.getElem?_setIfInBounds] at hrow
+          by_cases hee : n.e = e
+          · subst hee
+            rw [if_pos rfl, if_pos hes] at hrow
+            cases hrow
+            have := hsmall n.e rowE he
+            simp only [List.countP_cons, beq_self_eq_true, if_true] at this
+            simp only [List.length_append, List.length_singleton]
+            omega
+          · rw [if_neg hee] at hrow
+            have := hsmall e row hrow
+            have hne : (n.e == e) = false := by simpa using hee
+            simp only [List.countP_cons, hne] at this
+            simpa using this
+        · intro e row i x he1 hrow hx
+          rw [Array.getElem?_setIfInBounds] at hrow
+          by_cases hee : n.e = e
+          · subst hee
+            rw [if_pos rfl, if_pos hes] at hrow
+            cases hrow
+            rcases Nat.lt_or_ge i rowE.length with hi | hi
+            · rw [List.getElem?_append_left hi] at hx
+              obtain ⟨a1, a2, a3⟩ := hent n.e rowE i x he1 he hx
+              exact ⟨a1, a2, keep x a3⟩
+            · rw [List.getElem?_append_right hi] at hx
+              have hx0 : i - rowE.length = 0 := by
+                rcases Nat.eq_zero_or_pos (i - rowE.length) with h0 | h0
+                · exact h0
+                · rw [List.getElem?_eq_none (by simp; omega)] at hx; cases hx
+              rw [hx0] at hx
+              simp only [List.getElem?_cons_zero] at hx
+              cases hx
+              refine ⟨rfl, hn.1, keep _ ?_⟩
+              rcases connectNode_ptr add I32_MAX conn n rowB (c, pe, pi) hc with hm | ⟨j, l, g1, g2, g3, g4⟩
+              · exact Or.inl hm
+              · simp only [] at g3 g4
+                have hjl : j < rowB.length := (List.getElem?_eq_some_iff.mp g1).1
+                have hsz := hsmall n.b rowB hb
+                have e1 : asU16 n.b = n.b := asU16_id _ (by omega)
+                have e2 : asU16 j = j := asU16_id _ (by omega)
+                refine Or.inr ⟨by simp only []; rw [g3, e1], ?_⟩
+                by_cases hb0 : n.b = 0
+                · exact Or.inl hb0
+                · exact Or.inr ⟨rowB, l, hb, by simp only []; rw [g4, e2]; exact g1, g2⟩
+          · rw [if_neg hee] at hrow
+            obtain ⟨a1, a2, a3⟩ := hent e row i x he1 hrow hx
+            exact ⟨a1, a2, keep x a3⟩
+
+theorem buildAll_pathInv (add : Int → Int → Option Int) (conn : Nat → Nat → Int) (len : Nat) (hlen : len ≤ 65535) :
+    ∀ (nodes : List Vit.Node) (rows : Rows) (acc : List Entry) (rows' : Rows) (ents : List Entry),
+      PathInv len nodes rows → (∀ n ∈ nodes, n.b < n.e ∧ n.e ≤ len) →
+      buildAll add I32_MAX conn nodes rows acc = .ok (rows', ents) → PathInv len [] rows'
+  | [], rows, acc, rows', ents, hinv, _, h => by
+    simp only [buildAll] at h; cases h; exact hinv
+  | n :: ns, rows, acc, rows', ents, hinv, hns, h => by
+    unfold buildAll at h
+    cases hi : insert add I32_MAX conn rows n with
+    | err k => rw [hi] at h; cases h
+    | panic w => rw [hi] at h; cases h
+    | ok r =>
+      obtain ⟨rows1, e1⟩ := r
+      rw [hi] at h; simp only [] at h
+      have h1 := insert_pathInv add conn len hlen ns rows n hinv (hns n (List.mem_cons_self ..)) rows1 e1 hi
+      exact buildAll_pathInv add conn len hlen ns rows1 (e1 :: acc) rows' ents h1
+        (fun m hm => hns m (List.mem_cons_of_mem _ hm)) h
+
+/-- `fill_top_path` from a connected entry: the walk follows the back-pointers through strictly decreasing rows,
+never indexes out of range, ends at a node that begins at 0 within `e` steps, and visits only nodes inside the text -/
+theorem topPath_ok (len : Nat) (rows : Rows) (hinv : PathInv len [] rows) :
+    ∀ (e fuel i : Nat) (p : Entry) (acc : List Entry) (row : List Entry), 1 ≤ e → e ≤ fuel →
+      rows[e]? = some row → row[i]? = some p → p.total ≠ I32_MAX →
+      ∃ ents, topPath rows fuel (e, i) acc = .ok ents ∧
+        ∀ x ∈ ents, x ∈ acc ∨ (x.node.b < x.node.e ∧ x.node.e ≤ len) := by
+  intro e
+  induction e using Nat.strongRecOn with
+  | _ e ih =>
+    intro fuel i p acc row he hf hrow hp hconn
+    obtain ⟨a1, a2, a3⟩ := hinv.ent e row i p he hrow hp
+    have hel : e ≤ len := by
+      have := (Array.getElem?_eq_some_iff.mp hrow).1
+      have := hinv.size
+      omega
+    cases fuel with
+    | zero => omega
+    | succ f =>
+      have hfr : fullRow rows e = some row := by
+        unfold fullRow; rw [hrow]; simp only []; rw [if_neg (by omega)]
+      rcases a3 with a3 | ⟨b1, b2⟩
+      · exact absurd a3 hconn
+      · by_cases hpe : p.pe ≠ 0
+        · have hb0 : p.node.b ≠ 0 := by rw [← b1]; exact hpe
+          rcases b2 with b2 | ⟨row', q, c1, c2, c3⟩
+          · exact absurd b2 hb0
+          · obtain ⟨ents, g1, g2⟩ := ih p.node.b a2 f p.pi q (p :: acc) row' (by omega) (by omega) c1 c2 c3
+            refine ⟨ents, ?_, ?_⟩
+            · simp only [topPath, hfr, hp, b1, if_pos hb0]; exact g1
+            · intro x hx
+              rcases g2 x hx with g | g
+              · rcases List.mem_cons.mp g with g | g
+                · subst g; exact Or.inr ⟨by omega, by omega⟩
+                · exact Or.inl g
+              · exact Or.inr g
+        · refine ⟨p :: acc, ?_, ?_⟩
+          · simp only [topPath, hfr, hp, if_neg hpe]
+          · intro x hx
+            rcases List.mem_cons.mp hx with g | g
+            · subst g; exact Or.inr ⟨by omega, by omega⟩
+            · exact Or.inl g
+
+/-- `connect_eos` that succeeds designates a connected entry of the last row -/
+theorem connectEos_ptr (add : Int → Int → Option Int) (conn : Nat → Nat → Int) (len : Nat) (hlen : len ≤ 65535)
+    (rows : Rows) (hinv : PathInv len [] rows) (c : Int) (pe pi : Nat)
+    (h : connectEos add I32_MAX conn rows len = .ok (c, pe, pi)) :
+    pe = len ∧ ∃ row p, rows[len]? = some row ∧ row[pi]? = some p ∧ p.total ≠ I32_MAX := by
+  have hid : asU16 len = len := asU16_id len hlen
+  unfold connectEos eosNode at h
+  simp only [hid] at h
+  cases hr : rows[len]? with
+  | none => rw [hr] at h; cases h
+  | some row =>
+    rw [hr] at h; simp only [] at h
+    cases hc : connectNode add I32_MAX conn row ⟨len, len, 0, 0, 0⟩ with
+    | none => rw [hc] at h; cases h
+    | some r =>
+      obtain ⟨c', pe', pi'⟩ := r
+      rw [hc] at h; simp only [] at h
+      split at h
+      · cases h
+      · rename_i hne
+        cases h
+        rcases connectNode_ptr add I32_MAX conn _ row _ hc with hm | ⟨j, l, g1, g2, g3, g4⟩
+        · exact absurd hm hne
+        · simp only [] at g3 g4
+          have hjl : j < row.length := (List.getElem?_eq_some_iff.mp g1).1
+          have hsz := hinv.small len row hr
+          simp only [List.countP_nil] at hsz
+          have e2 : asU16 j = j := asU16_id _ (by omega)
+          exact ⟨by rw [g3, hid], row, l, rfl, by rw [g4, e2]; exact g1, g2⟩
+
+theorem mapM_ok {α β : Type} (f : α → Outcome β) : ∀ (as : List α), (∀ a ∈ as, ∃ b, f a = .ok b) →
+    ∃ bs, mapM f as = .ok bs
+  | [], _ => ⟨[], rfl⟩
+  | a :: as, h => by
+    obtain ⟨b, hb⟩ := h a (List.mem_cons_self ..)
+    obtain ⟨bs, hbs⟩ := mapM_ok f as (fun x hx => h x (List.mem_cons_of_mem _ hx))
+    exact ⟨b :: bs, by simp only [mapM, hb, hbs]⟩
+
+/-- every scalar value of a decoded text costs at least one character start -/
+theorem utf8Decode_length_le : ∀ (n : Nat) (t cs : List Nat), t.length ≤ n → Wire.utf8Decode t = some cs →
+    cs.length ≤ EditM.nchars t := by
+  intro n
+  induction n with
+  | zero =>
+    intro t cs hl h
+    have : t = [] := List.length_eq_zero_iff.mp (by omega)
+    subst this
+    simp [Wire.utf8Decode] at h; subst h; simp
+  | succ n ih =>
+    intro t cs hl h
+    cases t with
+    | nil => simp [Wire.utf8Decode] at h; subst h; simp
+    | cons b0 rest =>
+      have key : ∀ (r : List Nat) (x : Nat), r.length ≤ n → (Wire.utf8Decode r).map (x :: ·) = some cs →
+          EditM.isStart b0 = true → EditM.nchars r ≤ EditM.nchars rest → cs.length ≤ EditM.nchars (b0 :: rest) := by
+        intro r x hr hm hs hle
+        cases hd : Wire.utf8Decode r with
+        | none => rw [hd] at hm; cases hm
+        | some cs' =>
+          rw [hd] at hm; simp only [Option.map_some] at hm
+          cases hm
+          have := ih r cs' hr hd
+          rw [nchars_cons, hs]; simp only [if_true, List.length_cons]; omega
+      have hlr : rest.length ≤ n := by simpa using hl
+      rw [Wire.utf8Decode.eq_def] at h; simp only [] at h
+      by_cases h1 : b0 < 0x80
+      · rw [if_pos h1] at h
+        exact key rest b0 hlr h (by unfold EditM.isStart; simp; omega) (Nat.le_refl _)
+      · rw [if_neg h1] at h
+        by_cases h2 : b0 < 0xC0
+        · rw [if_pos h2] at h; cases h
+        · rw [if_neg h2] at h
+          have hs : EditM.isStart b0 = true := by unfold EditM.isStart; simp; omega
+          by_cases h3 : b0 < 0xE0
+          · rw [if_pos h3] at h
+            cases rest with
+            | nil => cases h
+            | cons b1 r =>
+              simp only [] at h
+              exact key r _ (by simp at hlr; omega) h hs (by rw [nchars_cons]; omega)
+          · rw [if_neg h3] at h
+            by_cases h4 : b0 < 0xF0
+            · rw [if_pos h4] at h
+              cases rest with
+              | nil => cases h
+              | cons b1 r1 =>
+                cases r1 with
+                | nil => cases h
+                | cons b2 r =>
+                  simp only [] at h
+                  exact key r _ (by simp at hlr; omega) h hs (by rw [nchars_cons, nchars_cons]; omega)
+            · rw [if_neg h4] at h
+              cases rest with
+              | nil => cases h
+              | cons b1 r1 =>
+                cases r1 with
+                | nil => cases h
+                | cons b2 r2 =>
+                  cases r2 with
+                  | nil => cases h
+                  | cons b3 r =>
+                    simp only [] at h
+                    exact key r _ (by simp at hlr; omega) h hs (by rw [nchars_cons, nchars_cons, nchars_cons]; omega)
+
+/-! ## candidates of `build_lattice` are non-empty and inside the text (`b < e ≤ n`) -/
+
+/-- the shape of a built `InputBuffer` the providers rely on: one class word and one word-start flag per character,
+and every run of `mod_cat_continuity` ends inside the text -/
+structure BufOk (buf : Oov.Buf) : Prop where
+  cats : buf.cats.length = buf.chars.length
+  bow : buf.bow.length = buf.chars.length
+  cont : ∀ (o c : Nat), buf.cont[o]? = some c → o + c ≤ buf.chars.length
+
+/-- a candidate created at `o`: begins there, is non-empty, ends inside the text -/
+def CandOk (n o : Nat) (x : Oov.Node) : Prop := x.b = o ∧ o < x.e ∧ x.e ≤ n
+
+theorem isPrefix_length : ∀ (a b : List Nat), Oov.isPrefix a b = true → a.length ≤ b.length
+  | [], _, _ => by simp
+  | _ :: _, [], h => by simp [Oov.isPrefix] at h
+  | x :: as, y :: bs, h => by
+    simp only [Oov.isPrefix, Bool.and_eq_true] at h
+    have := isPrefix_length as bs h.2
+    simp; omega
+
+theorem lexNodes_cand (lex : List Oov.Word) (buf : Oov.Buf) (o : Nat) :
+    ∀ x ∈ Oov.lexNodes lex buf o, CandOk buf.chars.length o x := by
+  intro x hx
+  unfold Oov.lexNodes at hx
+  simp only [List.mem_filterMap, List.mem_filter, Bool.and_eq_true] at hx
+  obtain ⟨w, ⟨_, hne, hpre⟩, hw⟩ := hx
+  have h1 := isPrefix_length _ _ hpre
+  simp only [List.length_drop] at h1
+  have h2 : 1 ≤ w.surface.length := by
+    cases hs : w.surface with
+    | nil => simp [hs] at hne
+    | cons _ _ => simp
+  have hx : x = ⟨o, o + w.surface.length, w.l, w.r, w.c, false, 0⟩ := by
+    split at hw
+    · split at hw
+      · cases hw
+      · cases hw; rfl
+    · cases hw; rfl
+  subst hx
+  exact ⟨rfl, by simp only []; omega, by simp only []; omega⟩
+
+theorem mecabProvide_cand (cfg : Oov.MecabCfg) (buf : Oov.Buf) (hb : BufOk buf) (o created : Nat)
+    (ho : o < buf.chars.length) (nodes : List Oov.Node) (h : Oov.mecabProvide cfg buf o created = .ok nodes) :
+    ∀ x ∈ nodes, CandOk buf.chars.length o x := by
+  obtain ⟨charLen, cat, h1, _, hspec⟩ := Oov.mecabProvide_spec cfg buf o created nodes h
+  intro x hx
+  obtain ⟨h0, ct, _, ci, oovs, d, _, _, _, _, hsh⟩ := (hspec x).mp hx
+  have hc := hb.cont o charLen h1
+  rcases hsh with ⟨_, rfl⟩ | ⟨i, hi1, _, _, rfl⟩
+  · exact ⟨rfl, by simp only [Oov.mkNode]; omega, by simp only [Oov.mkNode]; omega⟩
+  · exact ⟨rfl, by simp only [Oov.mkNode]; omega, by simp only [Oov.mkNode]; omega⟩
+
+theorem simpleProvide_cand (cfg : Oov.SimpleCfg) (buf : Oov.Buf) (hb : BufOk buf) (o created : Nat)
+    (ho : o < buf.chars.length) (nodes : List Oov.Node) (h : Oov.simpleProvide cfg buf o created = .ok nodes) :
+    ∀ x ∈ nodes, CandOk buf.chars.length o x := by
+  have hob : o < buf.bow.length := by rw [hb.bow]; exact ho
+  obtain ⟨s1, s2⟩ := Oov.simpleProvide_spec cfg buf o created hob
+  by_cases hc : created = 0
+  · obtain ⟨k, ⟨k1, k2, _⟩, hk⟩ := s2 hc
+    rw [hk] at h; cases h
+    intro x hx
+    simp only [List.mem_singleton] at hx
+    subst hx
+    rw [hb.bow] at k2
+    exact ⟨rfl, by simp only []; omega, by simp only []; omega⟩
+  · rw [s1 hc] at h; cases h
+    intro x hx; cases hx
+
+theorem greedy_le (set : List Nat) : ∀ (s : List Nat) (mx : Option Nat), Oov.greedy set mx s ≤ s.length
+  | [], mx => by
+    cases mx with
+    | none => simp [Oov.greedy]
+    | some m => cases m <;> simp [Oov.greedy]
+  | c :: rest, mx => by
+    have ih := fun m => greedy_le set rest m
+    cases mx with
+    | none =>
+      simp only [Oov.greedy]
+      split
+      · have := ih (Option.map (· - 1) none); simp only [List.length_cons]; omega
+      · omega
+    | some m =>
+      cases m with
+      | zero => simp [Oov.greedy]
+      | succ m' =>
+        simp only [Oov.greedy]
+        split
+        · have := ih (Option.map (· - 1) (some (m' + 1))); simp only [List.length_cons]; omega
+        · omega
+
+theorem regexFind_le (alts : List Oov.Alt) (s : List Nat) (k : Nat) (h : Oov.regexFind alts s = some k) :
+    k ≤ s.length := by
+  unfold Oov.regexFind at h
+  obtain ⟨a, _, ha⟩ := List.exists_of_findSome?_eq_some h
+  unfold Oov.altMatch at ha
+  simp only [] at ha
+  split at ha
+  · cases ha; exact greedy_le a.set s a.max
+  · cases ha
+
+theorem regexProvide_cand (cfg : Oov.RegexCfg) (buf : Oov.Buf) (o created : Nat) (existing : List Oov.Node)
+    (nodes : List Oov.Node) (h : Oov.regexProvide cfg buf o created existing = .ok nodes) :
+    ∀ x ∈ nodes, CandOk buf.chars.length o x := by
+  unfold Oov.regexProvide at h
+  split at h
+  · cases h
+  · cases h; intro x hx; cases hx
+  · unfold Oov.regexCore at h
+    split at h
+    · cases h
+    · rename_i hle
+      split at h
+      · cases h; intro x hx; cases hx
+      · rename_i k hk
+        have hkl := regexFind_le _ _ _ hk
+        simp only [List.length_drop, List.length_take] at hkl
+        split at h
+        · cases h
+        · rename_i hk0
+          have hc : CandOk buf.chars.length o (Oov.regexNode cfg o k) :=
+            ⟨rfl, by simp only [Oov.regexNode]; omega, by simp only [Oov.regexNode]; omega⟩
+          split at h
+          · cases h; intro x hx; cases hx
+          · cases h; intro x hx; simp only [List.mem_singleton] at hx; subst hx; exact hc
+          · split at h
+            · cases h; intro x hx; cases hx
+            · cases h; intro x hx; simp only [List.mem_singleton] at hx; subst hx; exact hc
+
+theorem provideOovs_cand (p : Oov.Provider) (buf : Oov.Buf) (hb : BufOk buf) (o : Nat) (ho : o < buf.chars.length)
+    (st st' : Nat × List Oov.Node) (h : Oov.provideOovs p buf o st = .ok st')
+    (hst : ∀ x ∈ st.2, CandOk buf.chars.length o x) : ∀ x ∈ st'.2, CandOk buf.chars.length o x := by
+  unfold Oov.provideOovs at h
+  split at h
+  · rename_i new hnew
+    cases h
+    intro x hx
+    rcases List.mem_append.mp hx with hx | hx
+    · exact hst x hx
+    · unfold Oov.provide at hnew
+      cases p with
+      | mecab cfg => exact mecabProvide_cand cfg buf hb o _ ho new hnew x hx
+      | simple cfg => exact simpleProvide_cand cfg buf hb o _ ho new hnew x hx
+      | regex cfg => exact regexProvide_cand cfg buf o _ _ new hnew x hx
+  · cases h
+  · cases h
+
+theorem provideAll_cand (buf : Oov.Buf) (hb : BufOk buf) (o : Nat) (ho : o < buf.chars.length) :
+    ∀ (ps : List Oov.Provider) (st st' : Nat × List Oov.Node), Oov.provideAll ps buf o st = .ok st' →
+      (∀ x ∈ st.2, CandOk buf.chars.length o x) → ∀ x ∈ st'.2, CandOk buf.chars.length o x
+  | [], st, st', h, hst => by simp only [Oov.provideAll] at h; cases h; exact hst
+  | p :: rest, st, st', h, hst => by
+    simp only [Oov.provideAll] at h
+    split at h
+    · rename_i st1 h1
+      exact provideAll_cand buf hb o ho rest st1 st' h (provideOovs_cand p buf hb o ho st st1 h1 hst)
+    · cases h
+    · cases h
+
+theorem stepAt_cand (ps : List Oov.Provider) (lex : List Oov.Word) (buf : Oov.Buf) (hb : BufOk buf) (o : Nat)
+    (nodes : List Oov.Node) (h : Oov.stepAt ps lex buf o = .ok nodes) :
+    ∀ x ∈ nodes, CandOk buf.chars.length o x := by
+  unfold Oov.stepAt at h
+  split at h
+  · cases h
+  · rename_i cat hcat
+    have ho : o < buf.chars.length := by
+      have := (List.getElem?_eq_some_iff.mp hcat).1
+      rw [hb.cats] at this; exact this
+    obtain ⟨st1, h1, h⟩ := Oov.bind_eq_ok _ _ _ h
+    obtain ⟨st2, h2, h⟩ := Oov.bind_eq_ok _ _ _ h
+    have c1 : ∀ x ∈ st1.2, CandOk buf.chars.length o x := by
+      unfold Oov.afterLoop at h1
+      split at h1
+      · exact provideAll_cand buf hb o ho ps _ st1 h1 (lexNodes_cand lex buf o)
+      · cases h1; exact lexNodes_cand lex buf o
+    have c2 : ∀ x ∈ st2.2, CandOk buf.chars.length o x := by
+      unfold Oov.fallback at h2
+      split at h2
+      · split at h2
+        · cases h2
+        · exact provideOovs_cand _ buf hb o ho st1 st2 h2 c1
+      · cases h2; exact c1
+    unfold Oov.finish at h
+    split at h
+    · cases h
+    · cases h; exact c2
+
+theorem buildFrom_cand (ps : List Oov.Provider) (lex : List Oov.Word) (buf : Oov.Buf) (hb : BufOk buf) :
+    ∀ (pos : List Nat) (acc nodes : List Oov.Node), Oov.buildFrom ps lex buf pos acc = .ok nodes →
+      (∀ x ∈ acc, x.b < x.e ∧ x.e ≤ buf.chars.length) → ∀ x ∈ nodes, x.b < x.e ∧ x.e ≤ buf.chars.length
+  | [], acc, nodes, h, hacc => by simp only [Oov.buildFrom] at h; cases h; exact hacc
+  | p :: rest, acc, nodes, h, hacc => by
+    simp only [Oov.buildFrom] at h
+    split at h
+    · exact buildFrom_cand ps lex buf hb rest acc nodes h hacc
+    · split at h
+      · rename_i new hnew
+        refine buildFrom_cand ps lex buf hb rest (acc ++ new) nodes h ?_
+        intro x hx
+        rcases List.mem_append.mp hx with hx | hx
+        · exact hacc x hx
+        · obtain ⟨a1, a2, a3⟩ := stepAt_cand ps lex buf hb p new hnew x hx
+          exact ⟨by omega, a3⟩
+      · cases h
+      · cases h
+
+/-- **every candidate `build_lattice` inserts is non-empty and ends inside the text** (`b < e ≤ n`), for the
+dictionary look-up and all three OOV providers, given the shape of a built buffer (`BufOk`) -/
+theorem buildLattice_cand (ps : List Oov.Provider) (lex : List Oov.Word) (buf : Oov.Buf) (hb : BufOk buf)
+    (nodes : List Oov.Node) (h : Oov.buildLattice ps lex buf = .ok nodes) :
+    ∀ x ∈ nodes, x.b < x.e ∧ x.e ≤ buf.chars.length := by
+  unfold Oov.buildLattice at h
+  split at h
+  · rename_i ns hns
+    split at h
+    · cases h
+      exact buildFrom_cand ps lex buf hb _ [] _ hns (fun x hx => by cases hx)
+    · cases h
+  · cases h
+  · cases h
+
+/-! ### the buffer of `Model/Oov.lean` built with the left-to-right run table (the tree after `fix: compute
+character-class runs left to right`) has the shape `BufOk` -/
+
+theorem allSome_length {α : Type} : ∀ (l : List (Option α)) (r : List α), Wire.allSome l = some r → r.length = l.length
+  | [], r, h => by simp [Wire.allSome] at h; subst h; rfl
+  | none :: _, r, h => by simp [Wire.allSome] at h
+  | some a :: rest, r, h => by
+    simp only [Wire.allSome] at h
+    cases h1 : Wire.allSome rest with
+    | none => rw [h1] at h; cases h
+    | some r' =>
+      rw [h1] at h; simp only [Option.map_some] at h; cases h
+      simp [allSome_length rest r' h1]
+
+theorem bowGoV_length (cb : Bool) : ∀ (cats : List Nat) (nb : Bool) (prev : Nat), (Oov.bowGoV cb cats nb prev).length = cats.length
+  | [], _, _ => rfl
+  | cat :: rest, nb, prev => by
+    simp only [Oov.bowGoV]
+    split
+    · simp [bowGoV_length cb rest]
+    · split
+      · simp [bowGoV_length cb rest]
+      · split
+        · simp [bowGoV_length cb rest]
+        · split <;> simp [bowGoV_length cb rest]
+
+/-- every run of the left-to-right run table ends inside the text -/
+theorem forward_run_inside : ∀ (n : Nat) (cats : List Nat), cats.length ≤ n → ∀ (o c : Nat),
+    (Oov.fillCatContinuityForward cats)[o]? = some c → o + c ≤ cats.length := by
+  intro n
+  induction n with
+  | zero =>
+    intro cats hl o c h
+    have : cats = [] := List.length_eq_zero_iff.mp (by omega)
+    subst this
+    rw [Oov.fillCatContinuityForward] at h; simp at h
+  | succ n ih =>
+    intro cats hl o c h
+    cases cats with
+    | nil => rw [Oov.fillCatContinuityForward] at h; simp at h
+    | cons c0 rest =>
+      rw [Oov.fillCatContinuityForward] at h
+      have hk := Oov.scan_le c0 rest
+      rcases Nat.lt_or_ge o (Oov.scan c0 rest + 1) with ho | ho
+      · rw [List.getElem?_append_left (by rw [Oov.countdown_length]; exact ho), Oov.countdown_getElem?, if_pos ho] at h
+        cases h
+        simp only [List.length_cons]; omega
+      · rw [List.getElem?_append_right (by rw [Oov.countdown_length]; exact ho), Oov.countdown_length] at h
+        have := ih (rest.drop (Oov.scan c0 rest)) (by simp only [List.length_drop]; simp at hl; omega) _ c h
+        simp only [List.length_drop] at this
+        simp only [List.length_cons]; omega
+
+/-- `Oov.mkBufV .forward` (the buffer the C13 correspondence ties to `InputBuffer::build` of the current tree) is `BufOk` -/
+theorem mkBufV_forward_ok (bowFix : Bool) (tab : List (Nat × Nat)) (chars : List Nat) (buf : Oov.Buf)
+    (h : Oov.mkBufV .forward bowFix tab chars = some buf) : BufOk buf ∧ buf.chars = chars := by
+  unfold Oov.mkBufV at h
+  cases hc : Wire.allSome (chars.map (CharCat.lookup tab)) with
+  | none => rw [hc] at h; cases h
+  | some cats =>
+    rw [hc] at h; simp only [Option.some.injEq] at h
+    subst h
+    have hl : cats.length = chars.length := by rw [allSome_length _ _ hc, List.length_map]
+    refine ⟨⟨hl, ?_, ?_⟩, rfl⟩
+    · simp only []
+      split
+      · rw [Oov.bowTableFix, bowGoV_length, hl]
+      · rw [Oov.bowTable, Oov.bowGo, bowGoV_length, hl]
+    · intro o c hoc
+      simp only [Oov.fillCatContinuity] at hoc
+      have := forward_run_inside cats.length cats (Nat.le_refl _) o c hoc
+      simp only []; omega
 
 end Total
